@@ -283,6 +283,9 @@ pub fn run(args: &Args) -> Report {
     report.extra.insert("informational_cases".into(), json!(info.states));
     report.extra.insert("informational_mismatches".into(), json!(info.outcomes.get("informational-mismatch").copied().unwrap_or(0)));
 
+    // static derive/std twins: verdict-bearing round trips + conformance of the dynamic engine
+    crate::twins::run_all("C01", &mut report);
+
     report.extra.insert("shapes".into(), json!(shapes.len()));
     report.bounds = bounds.as_object().unwrap().clone();
     report.nontrivial = report.states;
